@@ -91,9 +91,26 @@ def sched(req):
         return {"error": kind, "type": name, "msg": str(e)[:200]}
     n = 1 + int(req.get("again", 0))
     obs = None
-    for _ in range(n):
-        project.schedule()
+    # the order in which the loop hands the tasks to `schedule()` (first call per task and scenario); recorded from outside
+    from scriptplan.core import task as _task_mod
+    picks = {}
+    orig_schedule = _task_mod.Task.schedule
+
+    def recording_schedule(self, scenarioIdx):
+        lst = picks.setdefault(scenarioIdx, [])
+        if self.fullId not in lst:
+            lst.append(self.fullId)
+        return orig_schedule(self, scenarioIdx)
+    for k in range(n):
+        if k == 0:
+            _task_mod.Task.schedule = recording_schedule
+        try:
+            project.schedule()
+        finally:
+            _task_mod.Task.schedule = orig_schedule
         o = observe(project)
+        for sc in o["scenarios"]:
+            sc["pick_order"] = picks.get(sc["idx"], [])
         if obs is not None and o != obs and "again_diff" not in o:
             o["again_diff"] = True
         obs = o
